@@ -298,6 +298,14 @@ class _Inliner:
     def stmt(self, st, caller, free, cls, meth):
         if isinstance(st, (ast.FunctionDef, ast.ClassDef)):
             return None
+        # form: for v in helper(..):   ->   _seq = helper(..) ; for v in _seq:   (the assignment is inlined by the next pass)
+        if isinstance(st, ast.For) and isinstance(st.iter, ast.Call) and self.target(st.iter, free, cls, meth, caller) is not None:
+            self.k += 1
+            nm = "_seq__h%d" % self.k
+            a = ast.copy_location(ast.Assign(targets=[ast.Name(id=nm, ctx=ast.Store())], value=st.iter, lineno=st.lineno), st)
+            st.iter = ast.copy_location(ast.Name(id=nm, ctx=ast.Load()), st.iter)
+            ast.fix_missing_locations(a)
+            return [a, st]
         # form: return helper(..) / helper(..) / x = helper(..)
         call = None
         if isinstance(st, (ast.Return, ast.Expr)) and isinstance(st.value, ast.Call):
@@ -549,6 +557,42 @@ def _unroll_fn(f, log):
             pass
 
 
+# ------------------------------------------------------------------------------------------------ 2b. zip
+class _Zip(ast.NodeTransformer):
+    """`for a, b in zip(A, B): body`  ->  `for _z in range(len(A)): body[a := A[_z], b := B[_z]]`  for plain sequences A, B that
+    the body neither rebinds nor resizes (the sequences the package zips are built to the same length a few lines above; the
+    length agreement itself is not something this view decides)"""
+    def __init__(self, log):
+        self.log, self.k = log, 0
+
+    def visit_For(self, n):
+        self.generic_visit(n)
+        it = n.iter
+        if isinstance(it, ast.Call) and isinstance(it.func, ast.Name) and it.func.id == "zip" and len(it.args) >= 2 \
+                and not it.keywords and isinstance(n.target, ast.Tuple) and len(n.target.elts) == len(it.args) and \
+                all(isinstance(e, ast.Name) for e in n.target.elts) and not n.orelse and \
+                all(isinstance(a, (ast.Name, ast.Attribute)) and _pure(a) for a in it.args):
+            st = _stores(n.body)
+            tg = {e.id for e in n.target.elts}
+            names = set()
+            for a in it.args:
+                names |= _names([a])
+            if not (tg | names) & st and not any(_Enum(None).mutates(n.body, a) for a in it.args):
+                self.k += 1
+                z = "_z%d" % self.k
+                m = {}
+                for e, a in zip(n.target.elts, it.args):
+                    m[e.id] = ast.copy_location(ast.Subscript(value=copy.deepcopy(a), slice=ast.Name(id=z, ctx=ast.Load()),
+                                                              ctx=ast.Load()), it)
+                n.body = [ast.fix_missing_locations(s_) for s_ in _subst(n.body, m)]
+                n.target = ast.copy_location(ast.Name(id=z, ctx=ast.Store()), n.target)
+                rng = ast.Call(func=ast.Name(id="range", ctx=ast.Load()), args=[
+                    ast.Call(func=ast.Name(id="len", ctx=ast.Load()), args=[copy.deepcopy(it.args[0])], keywords=[])], keywords=[])
+                n.iter = ast.fix_missing_locations(ast.copy_location(rng, it))
+                self.log.append(("zip", ast.unparse(it.args[0])))
+        return n
+
+
 # ------------------------------------------------------------------------------------------------ 4. x = x op e
 class _Aug(ast.NodeTransformer):
     """`T = T op e` -> `T op= e` for a name / subscript / attribute target (the value the target ends up with is the same; the
@@ -573,6 +617,7 @@ def normalise(tree, modname, inventory):
     inl.run()
     tree._helpers = inl.found
     _Enum(log).visit(tree)
+    _Zip(log).visit(tree)
     _Aug(log).visit(tree)
     ast.fix_missing_locations(tree)
     return log
